@@ -77,6 +77,19 @@ static void fill_mem()
     reg<T>("gather_u", [](const xsv_args* a) { B<U> idx; std::memcpy(static_cast<void*>(&idx), a->in[1], n * sizeof(U)); to_image<T>(a->out[0], B<T>::gather(reinterpret_cast<const T*>(a->in[0]), idx)); });
     reg<T>("scatter_i", [](const xsv_args* a) { B<I> idx; std::memcpy(static_cast<void*>(&idx), a->in[1], n * sizeof(I)); from_image<T>(a->in[0]).scatter(reinterpret_cast<T*>(a->out[0]), idx); });
     reg<T>("scatter_u", [](const xsv_args* a) { B<U> idx; std::memcpy(static_cast<void*>(&idx), a->in[1], n * sizeof(U)); from_image<T>(a->in[0]).scatter(reinterpret_cast<T*>(a->out[0]), idx); });
+    // converting gather / scatter (memory element type differs from the lane type; a static_cast per element): the pairs with
+    // a dedicated kernel somewhere (float, int32 <- double on avx2) and their widening counterparts
+    if constexpr (std::is_same<T, float>::value || std::is_same<T, int32_t>::value)
+    {
+        reg<T>("gather_as_f64_i", [](const xsv_args* a) { B<I> idx; std::memcpy(static_cast<void*>(&idx), a->in[1], n * sizeof(I)); to_image<T>(a->out[0], B<T>::gather(reinterpret_cast<const double*>(a->in[0]), idx)); });
+        reg<T>("scatter_as_f64_i", [](const xsv_args* a) { B<I> idx; std::memcpy(static_cast<void*>(&idx), a->in[1], n * sizeof(I)); from_image<T>(a->in[0]).scatter(reinterpret_cast<double*>(a->out[0]), idx); });
+    }
+    if constexpr (std::is_same<T, double>::value || std::is_same<T, int64_t>::value)
+    {
+        reg<T>("gather_as_f32_i", [](const xsv_args* a) { B<I> idx; std::memcpy(static_cast<void*>(&idx), a->in[1], n * sizeof(I)); to_image<T>(a->out[0], B<T>::gather(reinterpret_cast<const float*>(a->in[0]), idx)); });
+        reg<T>("gather_as_i32_i", [](const xsv_args* a) { B<I> idx; std::memcpy(static_cast<void*>(&idx), a->in[1], n * sizeof(I)); to_image<T>(a->out[0], B<T>::gather(reinterpret_cast<const int32_t*>(a->in[0]), idx)); });
+        reg<T>("scatter_as_f32_i", [](const xsv_args* a) { B<I> idx; std::memcpy(static_cast<void*>(&idx), a->in[1], n * sizeof(I)); from_image<T>(a->in[0]).scatter(reinterpret_cast<float*>(a->out[0]), idx); });
+    }
     // broadcast and the element-list constructor
     reg<T>("broadcast", [](const xsv_args* a) { T v; std::memcpy(&v, a->in[0], sizeof v); to_image<T>(a->out[0], B<T>(v)); });
     reg<T>("broadcast_fn", [](const xsv_args* a) { T v; std::memcpy(&v, a->in[0], sizeof v); to_image<T>(a->out[0], xs::broadcast<T, A>(v)); });
